@@ -155,6 +155,8 @@ def _random_cases(rnd, n):
         elif cls == "SEQ":
             al = rnd.choice(["NT_STRICT", "NT_EXTENDED", "NT_STRICT_GAPPED", "NT_STRICT_UNKNOWN"])
             a = [[rnd.choice("ACGTacgtNRn-!x") for _ in range(rnd.randrange(0, 6))], al]
+            if rnd.random() < 0.3:  # white space where files leave it: at the very end, at the very start
+                a[0] = a[0] + [rnd.choice(["\n", "\r", " ", "\t", "\n"])] if rnd.random() < 0.7 else [rnd.choice(["\n", " "])] + a[0]
         else:
             a = [r(0, 10), rnd.choice([-1, 4, 8]), rnd.choice(["", "+", "-"]), rnd.choice("+-")]
         out.append((cls, "random", a))
